@@ -230,12 +230,10 @@ func runLayout(c *ctx, which string) {
 					if !bm.HasRowDataHash || bm.RowDataHash != crc32.Checksum(comp, crcTable) {
 						c.r.Add(Finding{Kind: "violation", Check: "row-data-hash", Detail: "metadata CRC32C does not match the block's row data bytes", Replay: map[string]any{"ops": h.Ops, "file": f.Ptr}})
 					}
-					cfgComp := h.Env.Cfg.RowDataCompression
-					if cfgComp == "" {
-						cfgComp = bs.CompressionNone
-					}
-					if bm.Compression != cfgComp {
-						c.r.Add(Finding{Kind: "violation", Check: "compression", Detail: fmt.Sprintf("block records compression %q, engine configured %q", bm.Compression, cfgComp), Replay: map[string]any{"ops": h.Ops, "file": f.Ptr}})
+					// an engine-written block names its compression explicitly, and it is one some engine of this
+					// history was configured with (that the bytes really decode under it is the read-back check)
+					if h.CompSeen != nil && !h.CompSeen[bm.Compression] {
+						c.r.Add(Finding{Kind: "violation", Check: "compression", Detail: fmt.Sprintf("block records compression %q; the engines of this history were configured with %v", bm.Compression, h.CompSeen), Replay: map[string]any{"ops": h.Ops, "file": f.Ptr}})
 					}
 					cnt := bs.BloomEntryCounts{Fields: len(blockEntries.f), Tokens: len(blockEntries.t), FieldTokens: len(blockEntries.ft)}
 					if bm.BloomEntryCounts != cnt {
